@@ -14,8 +14,10 @@ int main(int argc, char **argv) {
     if (!strcmp(argv[i], "-o") && i + 1 < argc) out = argv[++i];
     else if (argv[i][0] != '-') in = argv[i];
   }
-  if (!in || !out) { fprintf(stderr, "stub-as: usage\n"); return 2; }
-  FILE *f = fopen(in, "r");
+  if (!out) { fprintf(stderr, "stub-as: usage\n"); return 2; }
+  // like the real assembler: no input file (or "-") means standard input -- a driver may feed the compiler's text through a pipe
+  FILE *f = (!in || !strcmp(in, "-")) ? stdin : fopen(in, "r");
+  if (!in) in = "{standard input}";
   if (!f) { fprintf(stderr, "stub-as: cannot open %s\n", in); return 1; }
   unsigned long h = 0xcbf29ce484222325ul, n = 0;
   char buf[4096];
@@ -32,7 +34,7 @@ int main(int argc, char **argv) {
     n += k;
   }
   if (ferror(f)) { fprintf(stderr, "stub-as: read error on %s\n", in); return 1; }
-  fclose(f);
+  if (f != stdin) fclose(f);
   if (bad) { fprintf(stderr, "stub-as: %s: Error: no such instruction\n", in); return 1; }
   FILE *o = fopen(out, "w");
   if (!o) { fprintf(stderr, "stub-as: cannot open %s for writing\n", out); return 1; }
